@@ -173,6 +173,11 @@ class Domain:
         """post-process a synchronously invoked closure's result (return False to discard the path as infeasible)"""
         return None
 
+    def summarise_loop(self, ex, loop, st, frame):
+        """called on first arrival at a loop header: return a truthy summary after applying the loop's total effect to `st`
+        (the walker then continues at the loop exit), or None to have the loop unrolled"""
+        return None
+
     def on_assert(self, ex, node, st, frame):
         """assert(cond) encountered: rule may record it / assume it"""
         return None
@@ -204,6 +209,8 @@ class Exec:
         for st2, fr2, end in self._walk(fr, st):
             P = Path(); P.events = st2.events; P.decisions = st2.decisions; P.store = st2.store; P.ret = fr2.ret; P.end = end
             P.unknown_atoms = st2.unknown_atoms; P.asserts = st2.asserts
+            if isinstance(P.ret, Ref) and P.ret.loc[0] == 'l':
+                P.ret_ref = P.ret; P.ret = st2.store.get(P.ret.loc, P.ret)
             out.append(P)
         return out
 
@@ -240,6 +247,13 @@ class Exec:
             i = idx
             forked = False
             dead_paths = []
+            if idx == 0 and B.term in ('ForStmt', 'CXXForRangeStmt', 'WhileStmt') and B.termstmt is not None and len(B.succs) == 2 and B.succs[1] is not None:
+                self._st = st
+                handled = self.dom.summarise_loop(self, B.termstmt, st, fr)
+                if handled:
+                    st.events.append(('loop-summary', B.termstmt, handled))
+                    work.append((B.succs[1], 0, st, fr, dict(visits)))
+                    continue
             while i < len(B.elems):
                 e = B.elems[i]
                 res = self._elem(e, st, fr)
@@ -325,7 +339,7 @@ class Exec:
             if n.dk in ('local', 'param'):
                 key = ('l', fr.id, n.decl)
                 v = st.store.get(key)
-                if isinstance(v, Ref) and (n.declref or n.captured): return v.loc
+                if isinstance(v, Ref) and (n.declref or n.captured or v.loc[0] == 'f'): return v.loc
                 return key
             if n.dk == 'binding':
                 b = Node(n.tu, n.binding) if n.binding and n.binding in n.tu.ex else None
@@ -401,7 +415,7 @@ class Exec:
         n = e.node
         if n is None: return None
         if e.kind == 'init':
-            v = self._eval(n, st, fr)
+            v = self._rvalue(n, st, fr)
             if e.info.get('initfield'):
                 self.write(('f', fr.this + (e.info['initfield'],)), v, st, n)
             return None
@@ -462,6 +476,7 @@ class Exec:
     def _rvalue(self, n, st, fr):
         """value of n as an rvalue (locations are read)"""
         v = self._value(n, st, fr)
+        if n is not None and (n.k == 'this' or (n.k == 'unop' and n.op == '&')): return v       # an address stays an address
         if isinstance(v, Ref):
             return self.read(v.loc, st, n)
         return v
@@ -478,6 +493,8 @@ class Exec:
         if k == 'null': return Lin.const(0)
         if k == 'str': return Sym('str:' + d['v'][:20])
         if k == 'float': return Unknown('float')
+        if k == 'sizeof' and hasattr(self.dom, 'sizeof_value'):
+            return self.dom.sizeof_value(n)
         if k == 'sizeof':
             return Lin.sym('sizeof(' + (d.get('argtype') or 'expr') + ')') if 'v' not in d or d.get('argtype', '').startswith(('T', 'tulz', 'std', 'w::')) or True and d.get('argtype') else (Lin.const(d['v']) if 'v' in d else Unknown('sizeof'))
         if k == 'this': return Ref(('f', fr.this))
@@ -514,7 +531,9 @@ class Exec:
                 v = as_lin(self._rvalue(s, st, fr)); return -v if v is not None else Unknown('neg')
             if op == '&':
                 loc = self.loc_of(s, st, fr)
-                return Ref(loc) if loc else Unknown('addr')
+                if loc: return Ref(loc)
+                v = self._value(s, st, fr)
+                return v if (v is not None and not isinstance(v, (Unknown, Lin, bool))) else Unknown('addr')
             if op == '*':
                 v = self._value(s, st, fr)
                 if isinstance(v, Ref): return v
@@ -529,6 +548,9 @@ class Exec:
                     lv = self._value(n.n('lhs'), st, fr)
                     if isinstance(lv, Ref): loc = lv.loc
                 if loc is None:
+                    if hasattr(self.dom, 'assign_to'):
+                        r = self.dom.assign_to(self, n, self._value(n.n('lhs'), st, fr), rv, st, fr)
+                        if r is not None: return r
                     st.events.append(('write?', n, rv)); return Unknown('assign')
                 self.write(loc, rv, st, n)
                 return Ref(loc)
@@ -625,6 +647,8 @@ class Exec:
             return r if r is not None else Unknown('construct:' + d['class'])
         if k == 'initlist':
             args = n.ns('args'); names = d.get('fields') or []
+            if not names and len(args) == 1 and args[0] is not None: return self._rvalue(args[0], st, fr)
+            if not names and not args: return Lin.const(0)
             if names and len(names) >= len(args):
                 return Record({names[i]: self._rvalue(a, st, fr) for i, a in enumerate(args) if a is not None})
             return Unknown('initlist')
@@ -722,7 +746,7 @@ class Exec:
             raise Inconclusive(f'ambiguous callee for {n.text()[:60]}', n.shortloc())
         callee = targets[0]
         args = n.ns('args')
-        if n.k == 'call' and n.ck == 'op' and n.mclass: obj_node = args[0] if args else None; args = args[1:]
+        if n.k == 'call' and n.ck == 'op' and 'mclass' in n.d: obj_node = args[0] if args else None; args = args[1:]
         elif n.k == 'call': obj_node = n.n('object')
         else: obj_node = None
         if callee.d.get('lambda'):
